@@ -4,6 +4,30 @@ import "time"
 
 // The registered harness runs per property.  Parameters are the stated bounds.
 var checks = map[string][]HarnessSpec{
+	"C10": {
+		{Name: "HarnessC10Join", Pkg: "bql", Quick: map[string]int{"ROWS": 2, "SHARED": 1, "KINDS": 0}, Thorough: map[string]int{"ROWS": 3, "SHARED": 1, "KINDS": 0}},
+		{Name: "HarnessC10Join", Pkg: "bql", Quick: map[string]int{"ROWS": 2, "SHARED": 2, "KINDS": 0}, Thorough: map[string]int{"ROWS": 3, "SHARED": 2, "KINDS": 0}},
+		{Name: "HarnessC10Join", Pkg: "bql", Quick: map[string]int{"ROWS": 2, "SHARED": 0}, Thorough: map[string]int{"ROWS": 3, "SHARED": 0}},
+		{Name: "HarnessC10Join", Pkg: "bql", Quick: map[string]int{"ROWS": 2, "SHARED": 1, "KINDS": 1}, Thorough: map[string]int{"ROWS": 3, "SHARED": 1, "KINDS": 2}, Note: "cells of several kinds in the join column"},
+	},
+	"C11": {
+		{Name: "HarnessC11Reduce", Pkg: "bql", Quick: map[string]int{"ROWS": 3, "KINDS": 0}, Thorough: map[string]int{"ROWS": 4, "KINDS": 0}},
+		{Name: "HarnessC11Reduce", Pkg: "bql", Quick: map[string]int{"ROWS": 3, "KINDS": 2}, Thorough: map[string]int{"ROWS": 4, "KINDS": 2}, Note: "string, text-literal and node cells mixed in the grouping column"},
+	},
+	"C12": {
+		{Name: "HarnessC12IntOrder", Pkg: "bql", Solver: "cvc5-int", TimeoutMS: 60000},
+		{Name: "HarnessC12TimeOrder", Pkg: "bql"},
+		{Name: "HarnessC12Permutation", Pkg: "bql", Quick: map[string]int{"ROWS": 2}, Thorough: map[string]int{"ROWS": 3}},
+		{Name: "HarnessC12Limit", Pkg: "bql", Quick: map[string]int{"ROWS": 3}, Thorough: map[string]int{"ROWS": 5}},
+		{Name: "HarnessC12LimitClause", Pkg: "bql", Quick: map[string]int{"D": 2}, Thorough: map[string]int{"D": 4}},
+	},
+	"C13": {
+		{Name: "HarnessC13IntLeaf", Pkg: "bql", Solver: "cvc5-int", TimeoutMS: 60000},
+		{Name: "HarnessC13TextLeaf", Pkg: "bql", Quick: map[string]int{"L": 2}, Thorough: map[string]int{"L": 3}},
+		{Name: "HarnessC13KindMismatch", Pkg: "bql"},
+		{Name: "HarnessC13TimeLeaf", Pkg: "bql"},
+		{Name: "HarnessC13Boolean", Pkg: "bql"},
+	},
 	"C17": {
 		{Name: "HarnessC17Tables", Pkg: "bql"},
 		{Name: "HarnessC17Witness", Pkg: "bql"},
@@ -97,6 +121,10 @@ func assumptionsFor(prop string) []string {
 }
 
 var propAssumptions = map[string][]string{
+	"C10": {"kernel: Table.LeftOptionalJoin on two tables of <= ROWS rows sharing 0, 1 or 2 bindings; join cells are one symbolic byte over {a,b} (string cells; with KINDS>0 also text-literal and node cells); rows are tagged with id columns so every output row is attributed to its (left,right) pair", "the end-to-end OPTIONAL obligations (through the planner) are listed in the same evidence when registered"},
+	"C11": {"kernel: Table.Reduce with count, count distinct and int64 sum on <= ROWS rows, grouping cells one symbolic byte over {a,b}, values symbolic in [-3,3]; sort.Sort interpreted from its source", "float sums are not covered"},
+	"C12": {"int64 keys: full 64-bit range through ToComparableString (%032d, witness digits), decided by cvc5 --solve-bv-as-int=sum", "time keys and float keys: concrete pools (enumerated, not solved)", "permutation: string cells of one symbolic byte over {a,b,c}, one or two keys, every direction combination", "LIMIT clause: text of an optional sign and up to D symbolic bytes from '/'..':' with type int64/float64/text, through the real lexer, parser and hooks"},
+	"C13": {"leaves: int64 cell symbolic over the full range against constants from a pool of 8; text/string cells and constants up to L symbolic printable bytes without quote; times from a concrete pool; boolean structure over two symbolic leaves in six shapes", "the filtering step of the planner (queryPlan.having) is covered with the end-to-end obligations when registered"},
 	"C17": {"the grammar tables are finite: every rule and every pair of alternatives is covered (the rule and alternative indices are solver variables, concretized exhaustively)", "witness statements are built from the tables (shortest expansions, one candidate per place where the rule is mentioned) and validated by running the real lexer and parser with ProcessStart probes on a private copy of BQL()"},
 	"C18": {"token types are solver variables (one byte each, every type except Error/EOF) injected through the overlay shim grammar.NewLLkFromTokens; token texts come from a fixed sample per type", "reference recogniser: predictive descent over the same Grammar value (optional part taken iff its first token is next)", "statement 1 of the no-state check: every token sequence up to L the plain parser inspects, optionally prefixed by a cut-off INSERT; statement 2 from a corpus of nine statements (all kinds)"},
 	"C19": {"data: three concrete triples (two sharing a subject); the quantified space is the history (skeleton choices: operation, handle, argument) and the lookup options (MaxElements, Offset symbolic in [0,3], so key coincidences are solver decisions)", "pre-history: two triples added through handle 0 and the full listing read once through every handle (warms every cache)", "reads compared as sequences by pointer identity of the stored triple objects; lock-step oracle = a plain memory store"},
